@@ -65,7 +65,7 @@ def run(ctx):
         rc, err = ctx.harness(["xdr", "-seed", str(ctx.seed), "-desc", desc, "-values", str(nvals),
                                "-mutants", str(nmut)], tr, timeout=3000)
         tr2 = os.path.join(ctx.scratch, "disp.txt")
-        rc2, err2 = ctx.harness(["dispatch"], tr2)
+        rc2, err2 = ctx.harness(["dispatch", "-seed", str(ctx.seed), "-desc", desc], tr2)
         if rc != 0 or rc2 != 0:
             ctx.breaks.append(Break("correspondence", "harness xdr/dispatch failed", (err + err2)[-2000:]))
         else:
@@ -98,7 +98,7 @@ def run(ctx):
                             line = parts[1] if len(parts) > 1 else ""
                             w = line.split()
                             key = "xdr:" + (w[1] if len(w) > 1 else "?")
-                            if w and w[0] == "disp":
+                            if w and w[0] in ("disp", "dispt"):
                                 key = "dispatch:%s/%s" % (w[1], w[3])
                             ctx.add_violation(key, parts[0], {"input": {"line": line},
                                                               "how": "harness xdr / dispatch line, replayed through the real Xdr methods",
@@ -114,7 +114,8 @@ def run(ctx):
         "The codec model is tied to the real Xdr methods by correspondence on structured values and mutated byte strings.",
         "per type: structured random values (every union arm, optional/list shape, boundary lengths, one beyond each declared bound, and for unbounded strings lengths up to 70000) encoded and decoded by the "
         "real generated code and by the Lean codec with the RFC descriptors; each encoding mutated (truncate, bit flip, word "
-        "overwrite, junk, dropped word) and decoded by both; distinct = distinct values / byte strings; all 28 registrations called",
+        "overwrite, junk, dropped word) and decoded by both; distinct = distinct values / byte strings; all 28 registrations called, with an all-zero message and with "
+        "real encodings of generated argument values cut short at five places (the handler must be reached exactly when the RFC decoder accepts the message)",
         ["Spec/Rfc1813.lean is a transcription of RFC 1813's XDR text (go-rpcgen rfc1813/prot.x) made with tools/xspec.py",
          "Mountres3 (a result type) is excluded from the mutated-bytes stream: its decoder allocates the announced array length"],
         pending=["byte-for-byte equality of decode-then-encode on inputs with canonical booleans and zero padding (proved: same length and same value on every accepted input, identity on what the encoder wrote)"],
